@@ -422,8 +422,9 @@ def c07_case(rng, idx, params):
     if spec["kind"] == "AMORPH" and spec["fn"] in ("doji", "dojistar", "hammer", "inv_hammer") and rng.random() < 0.7:
         spec["lookback"] = rng.choice([1, 2, 5, 12])
     lengths = params.get("lengths", [120, 600])
-    stream, meta = gen.gen_stream(rng, max(lengths) + 1, price_style=rng.choice(["walk", "jumpy", "ints", "allzerovol", "flat", "zerovol", "repeat"]),
-                                  ts_style="regular")
+    # a stressing style for the kind half of the time (e.g. a counted condition that never breaks: the streak grows with the history)
+    style = gen.style_for(rng, spec["kind"], prob=0.5) or rng.choice(["walk", "jumpy", "ints", "allzerovol", "flat", "zerovol", "repeat", "rising", "falling"])
+    stream, meta = gen.gen_stream(rng, max(lengths) + 1, price_style=style, ts_style="regular")
     scn = {"spec": spec, "stream": stream, "lengths": lengths}
     try:
         bad = c07_check(scn)
